@@ -148,3 +148,58 @@ M("c20-producer-conditional-key", "C20", SCIPY,
 ''', '''    if bounds:
         cache["bounds"] = bounds
 ''', "R20.4", "bounds")
+
+# ----------------------------------------------------------------------------- C18
+M("c18-skip-check-for-one-method", "C18", SCIPY,
+  '''    non_continuous = [v for v in variables if v.domain != "continuous"]
+    if non_continuous:
+        names = ", ".join(v.name for v in non_continuous)
+        if strict:
+            raise IntegerVariableError(
+                solver_name="SciPy",''', '''    non_continuous = [v for v in variables if v.domain != "continuous"]
+    if non_continuous and method != "trust-constr":
+        names = ", ".join(v.name for v in non_continuous)
+        if strict:
+            raise IntegerVariableError(
+                solver_name="SciPy",''', "R18.1", "solve_scipy")
+M("c18-retry-drops-strict", "C18", SCIPY,
+  '''            use_hessian=use_hessian,
+            strict=strict,
+            **kwargs,''', '''            use_hessian=use_hessian,
+            **kwargs,''', "R18.2", "solve_scipy->solve_scipy")
+M("c18-warn-names-all-variables", "C18", LP,
+  '''        names = ", ".join(v.name for v in non_continuous)''', '''        names = ", ".join(v.name for v in variables)''', "R18.1", "solve_lp:integrality-block")
+MUTANTS.append(dict(id="c18-binary-override-before-plain", props=["C18"], file=EXPR, rule="R18.3", construct="Variable.__init__", edits=[
+  ('''        self.name = name
+        self.lb = lb
+        self.ub = ub
+        self.domain = domain
+''', '''        self.name = name
+        if domain == "binary":
+            self.lb = 0.0
+            self.ub = 1.0
+        self.lb = lb
+        self.ub = ub
+        self.domain = domain
+'''),
+  ('''        # Binary variables have implicit bounds
+        if domain == "binary":
+            self.lb = 0.0
+            self.ub = 1.0
+''', '''        # Binary variables have implicit bounds
+        if domain == "binary" and lb is None and ub is None:
+            self.lb = 0.0
+            self.ub = 1.0
+''')]))
+M("c18-strict-raise-without-names", "C18", LP,
+  '''                solver_name="linprog",
+                variable_names=[v.name for v in non_continuous],''', '''                solver_name="linprog",''', "R18.1", "solve_lp:integrality-block")
+M("c18-highs-route-drops-strict", "C18", PROBLEM,
+  '''            return solve_lp(self, method=method, strict=strict, **kwargs)''', '''            return solve_lp(self, method=method, **kwargs)''', "R18.2", "Problem.solve->solve_lp")
+M("c18-matrix-drops-domain", "C18", MATRICES,
+  '''                        Variable(f"{name}[{i},{j}]", lb=lb, ub=ub, domain=domain)''', '''                        Variable(f"{name}[{i},{j}]", lb=lb, ub=ub)''', "R18.3", "MatrixVariable.__init__")
+M("c18-vector-view-loses-domain", "C18", VECTORS,
+  '''        instance.ub = ub
+        instance.domain = domain
+        instance._variables = list(variables)  # Copy the list''', '''        instance.ub = ub
+        instance._variables = list(variables)  # Copy the list''', "R18.3", "VectorVariable._from_variables")
